@@ -90,6 +90,10 @@ let handle (line : string) : string =
     (match api_url_parse dta (cps_of_hex h) None with
      | ApiOk u -> String.concat " ; " (show_url u :: run_setters u ops [])
      | r -> show_api r)
+  | "SB" :: b :: h :: ops ->
+    (match api_url_parse dta (cps_of_hex h) (Some (cps_of_hex b)) with
+     | ApiOk u -> String.concat " ; " (show_url u :: run_setters u ops [])
+     | r -> show_api r)
   | ["FP"; q] ->
     String.concat " " (List.concat_map (fun (a, b) -> [hex_of_cps a; hex_of_cps b]) (urlencoded_parse (str_of_hex q)))
   | "FS" :: ps -> hex_of_cps (urlencoded_serialize (pairs ps))
